@@ -186,6 +186,9 @@ type eval struct {
 	partial  bool   // the value is an element / entry the configuration does not mention, of a collection of which it mentions others
 	onInline string // the tag sits on an inline field of this kind (slice, array, map)
 	numKind  string // tags: int, uint, float, dur or "" (kind of the value the parameter is read for)
+
+	viaIface    bool // the value is reached through an interface
+	ifaceDirect bool // ... and is the very value the interface holds (through pointers)
 }
 
 type pos struct {
@@ -199,10 +202,16 @@ type pos struct {
 	partial  bool
 	onInline string
 	numKind  string
+
+	viaIface    bool
+	ifaceDirect bool
+	noInit      bool // below an interface-held value the configuration does not mention: no InitDefaults is run there
+	set         bool // the configuration has a setting at this position (an explicit nil included; for the elements of a list: the list has one)
 }
 
 func (p pos) child(seg string, cfg *gen.Tree) pos {
 	q := p
+	q.ifaceDirect = false
 	q.path = append(append([]string{}, p.path...), seg)
 	q.alts = nil
 	for _, a := range p.alts {
@@ -217,6 +226,12 @@ type walker struct {
 	varexp bool
 	evals  []eval
 	d48    bool // class of finding D48 seen: a field of a primitive type with InitDefaults that the configuration does not mention
+	dyn    dynReg
+	d59    bool // class of finding D59 seen: a value held directly by an interface whose Validate() rejects
+	// class of N-C04-1 seen (walk over the pre-filled value): a struct, an array or a nil map held directly by an interface
+	// at a position the configuration has a setting for (the code merges into the unaddressable value and panics)
+	unaddr  bool
+	unknown bool // an interface of the value holds a type that is neither a dynamic type of the case nor generic data
 }
 
 var refRe = regexp.MustCompile(`^\$\{(r[0-9]+)\}$`)
@@ -247,13 +262,17 @@ func (w *walker) at(p pos, seg string, raw *gen.Tree) pos {
 	for _, nm := range names {
 		q.alts = append(q.alts, []string{nm})
 	}
+	q.set = raw != nil
 	return q
 }
 
 func (w *walker) add(p pos, what string, ok, soft bool) {
 	w.evals = append(w.evals, eval{path: p.path, alts: p.alts, what: what, ok: ok, soft: soft,
 		fromCfg: p.cfg != nil, initDef: p.initDef && p.cfg == nil, viaPtr: p.viaPtr, inColl: p.inColl, inInline: p.inInline,
-		partial: p.partial && p.cfg == nil, onInline: p.onInline, numKind: p.numKind})
+		partial: p.partial && p.cfg == nil, onInline: p.onInline, numKind: p.numKind, viaIface: p.viaIface, ifaceDirect: p.ifaceDirect})
+	if what == "Validate()" && p.ifaceDirect && !ok {
+		w.d59 = true
+	}
 }
 
 func cfgField(cfg *gen.Tree, name string) *gen.Tree {
@@ -315,11 +334,35 @@ func isStructish(td *gen.TD) bool {
 // walk visits the value v of type td.
 func (w *walker) walk(td *gen.TD, v reflect.Value, p pos) {
 	info, isCat := cats[td.Kind]
-	if isCat && info.initDefaults {
+	if isCat && info.initDefaults && !p.noInit {
 		p.initDef = true
 	}
 	sh := td.Shape()
 	switch sh.Kind {
+	case "iface":
+		// the value the interface holds is reachable: walk it with the descriptor of its dynamic type. The code merges a
+		// setting into that value like into a value of the concrete type; generic data holds no validators itself, but
+		// may hold typed values again
+		if v.IsNil() {
+			return
+		}
+		dv := v.Elem()
+		if k := dv.Kind(); p.set && (k == reflect.Struct || k == reflect.Array || (k == reflect.Map && dv.IsNil())) {
+			w.unaddr = true
+		}
+		dtd := w.dynTD(dv.Type(), false)
+		if dtd == nil {
+			if genericPrims[dv.Type()] == nil {
+				w.unknown = true
+			}
+			return
+		}
+		p.viaIface, p.ifaceDirect = true, true
+		if p.cfg == nil {
+			p.noInit, p.initDef = true, false
+		}
+		w.walk(dtd, dv, p)
+		return
 	case "ptr":
 		if v.IsNil() {
 			return
@@ -332,6 +375,8 @@ func (w *walker) walk(td *gen.TD, v reflect.Value, p pos) {
 			q := w.at(p, strconv.Itoa(i), cfgIndex(p.cfg, i))
 			q.inColl = true
 			q.partial = p.partial || (q.cfg == nil && mentionsElems(p.cfg))
+			// (a list policy moves elements: which setting meets which pre-filled element is not tracked)
+			q.set = q.set || (p.cfg != nil && (p.cfg.K != "list" || len(p.cfg.Vals) > 0))
 			w.walk(sh.Elem, v.Index(i), q)
 		}
 	case "map":
@@ -353,8 +398,10 @@ func (w *walker) walk(td *gen.TD, v reflect.Value, p pos) {
 			q := p
 			if isInline(f) {
 				q.inInline = true
+				q.ifaceDirect = false
 			} else {
 				q = w.at(p, f.ConfigName(), cfgField(p.cfg, f.ConfigName()))
+				q.set = q.cfg != nil // a nil setting of a struct field is no setting
 			}
 			if fi, ok := cats[f.T.Kind]; ok && fi.initDefaults && f.T.Shape().IsLeaf() && q.cfg == nil {
 				w.d48 = true
@@ -402,6 +449,16 @@ func (w *walker) elemLevel(td *gen.TD, v reflect.Value, t vtag, p pos) {
 }
 
 func (w *walker) elemApply(td *gen.TD, v reflect.Value, t vtag, p pos) {
+	if td.Kind == "iface" {
+		// the element an interface holds (the code applies the tag when it merges a setting into a pre-filled primitive)
+		if v.IsNil() {
+			return
+		}
+		v = v.Elem()
+		if td = w.dynTD(v.Type(), true); td == nil {
+			return
+		}
+	}
 	if isStructish(td) {
 		return
 	}
@@ -422,6 +479,11 @@ func same(a, b reflect.Value) bool {
 		return false
 	}
 	switch a.Kind() {
+	case reflect.Interface:
+		if a.IsNil() || b.IsNil() {
+			return a.IsNil() == b.IsNil()
+		}
+		return same(a.Elem(), b.Elem())
 	case reflect.Ptr:
 		if a.IsNil() || b.IsNil() {
 			return a.IsNil() == b.IsNil()
